@@ -178,6 +178,14 @@ func runC16(ctx *h.Ctx) int {
 		}
 		g := spec.NewGen(k.R, p)
 		prog := g.FullProgram(1 + k.R.IntN(5))
+		if k.Index%4 == 0 {
+			prog.Items = append(prog.Items, g.RawStmt())
+		}
+		for _, it := range prog.Items {
+			if r, ok := it.(*spec.Raw); ok && k.R.IntN(2) == 0 {
+				r.CRLF = true
+			}
+		}
 		rp, rerr := spec.Resolve(prog, prog.Switches)
 		pr := layoutOf(k, prog, 0.8)
 		k.SetSource(pr.Src)
@@ -249,19 +257,26 @@ func runC16(ctx *h.Ctx) int {
 					break
 				}
 			}
+			// with CR LF content every line but the last keeps its CR (the raw text is copied verbatim)
+			want := func(i int) string {
+				if r.CRLF && i < len(r.Lines)-1 {
+					return r.Lines[i] + "\r"
+				}
+				return r.Lines[i]
+			}
 			var at = -1
 			for j := range f.Lines {
-				if f.Lines[j].Text == r.Lines[li] {
+				if f.Lines[j].Text == want(li) {
 					at = j
 				}
 			}
 			if at < 0 {
-				k.Violation("raw-missing", fmt.Sprintf("raw line %q not found in the output", r.Lines[li]), det)
+				k.Violation("raw-missing", fmt.Sprintf("raw line %q not found in the output", want(li)), det)
 				return
 			}
 			for i := range r.Lines {
 				mi := at - 1 + 2*(i-li)
-				if mi < 0 || mi+1 >= len(f.Lines) || f.Lines[mi].Kind != asm.KMarker || f.Lines[mi+1].Text != r.Lines[i] {
+				if mi < 0 || mi+1 >= len(f.Lines) || f.Lines[mi].Kind != asm.KMarker || f.Lines[mi+1].Text != want(i) {
 					k.Violation("raw-shape", fmt.Sprintf("raw statement: expected a marker followed by raw line %d (%q) at output line %d", i, r.Lines[i], mi+1), det)
 					return
 				}
@@ -271,6 +286,9 @@ func runC16(ctx *h.Ctx) int {
 				}
 				rawDone[mi] = true
 				k.Count("marker:raw-line", 1)
+				if r.CRLF {
+					k.Count("marker:raw-line-crlf", 1)
+				}
 			}
 		}
 		curLabel := ""
